@@ -1526,6 +1526,9 @@ class Translator:
         return None
 
     def s_Expr(self, st, rest, env, frame):
+        su = self.stmt_update(st, rest, env, frame)
+        if su is not None:
+            return su
         c0 = st.value
         if (isinstance(c0, ast.Call) and isinstance(c0.func, ast.Attribute) and c0.func.attr == "update" and len(c0.args) == 1
                 and not c0.keywords and isinstance(c0.func.value, ast.Name) and c0.func.value.id in env
@@ -1728,6 +1731,19 @@ class Translator:
             if v.typ == inner:
                 env2, line = self.bind(t.left, V(f"(Option.getD {x.term} {v.term})", inner), env, st)
                 return line + "\n" + self.block(rest, env2, frame)
+        if (self.spec.get("narrow_not_none") and isinstance(t, ast.Compare) and len(t.ops) == 1 and isinstance(t.ops[0], ast.Is)
+                and isinstance(t.left, ast.Name) and isinstance(t.comparators[0], ast.Constant) and t.comparators[0].value is None
+                and t.left.id in env and env[t.left.id].typ.startswith("Option ") and t.left.id not in self.spec.get("maybe_locals", {})
+                and not st.orelse and st.body and isinstance(st.body[-1], (ast.Return, ast.Raise, ast.Continue, ast.Break))):
+            # spec `narrow_not_none`: `if x is None: …; return` — what follows runs with `x` the value itself
+            x = env[t.left.id]
+            inner_t = elem_type(x.typ)
+            nv = self.fresh("py_n")
+            env_s = dict(env)
+            env_s[t.left.id] = V(nv, inner_t)
+            a = self.block(st.body, env, frame)
+            b = self.block(rest, env_s, frame)
+            return f"match {x.term} with\n| none => (\n{ind(a)})\n| some {nv} => (\n{ind(b)})"
         if (self.spec.get("narrow_not_none") and isinstance(t, ast.Compare) and len(t.ops) == 1 and isinstance(t.ops[0], ast.IsNot)
                 and isinstance(t.left, ast.Name) and isinstance(t.comparators[0], ast.Constant) and t.comparators[0].value is None
                 and t.left.id in env and env[t.left.id].typ.startswith("Option ") and t.left.id not in self.spec.get("maybe_locals", {})):
@@ -1876,7 +1892,7 @@ class Translator:
 
     def assigned(self, stmts, acc):
         for s in stmts:
-            if isinstance(s, (ast.Assign, ast.AnnAssign)) and self.key(s) in self.spec.get("stmt_updates", {}):
+            if isinstance(s, (ast.Assign, ast.AnnAssign, ast.Expr)) and self.key(s) in self.spec.get("stmt_updates", {}):
                 if "__st" not in acc:
                     acc.append("__st")
             elif isinstance(s, (ast.Assign, ast.AugAssign, ast.AnnAssign)):
